@@ -27,6 +27,7 @@ class remove_isolated_cells:
         " 0, image[p, q, c]), (0, H), (0, W), (0, 3))",
     }
     result = lambda env: T.GridT("int", [env["H"], env["W"], 3])
+    pure_result = True
     props = ["C17"]
 
 
@@ -41,4 +42,49 @@ class extend_pixels:
         " image[(p - 1) // 2, (q - 1) // 2, c], 0), (0, 2 * H + 2), (0, 2 * W + 2), (0, 3))",
     }
     result = lambda env: T.GridT("int", [2 * env["H"] + 2, 2 * env["W"] + 2, 3])
+    pure_result = True
+    props = ["C17"]
+
+
+# ------------------------------------------------------------------------------------------- input / target images
+import contracts.pixels as PX  # noqa: E402
+
+SOLVED_M = T.RecT("SolvedMaze", connection_list=T.GridT("bool", [2, None, None]), start_pos=T.Coord, end_pos=T.Coord, solution=T.GridT("int", [None, 2], min_dim=1))
+FLAG = T.OneOf(T.Const(True), T.Const(False))
+_P = "maze.as_pixels(show_endpoints=True, show_solution=True)"
+
+
+def _is(img, colour, p="p", q="q"):
+    return f"rgb_is({img}, {p}, {q}, PixelColors.{colour})"
+
+
+# the input image: the maze's pixel image with the solution hidden (path pixels shown as open, endpoints kept)
+_INPUT = f"forall(lambda p, q: ({_is('final(g_in)', 'OPEN')} if {_is(_P, 'PATH')} else same_pixel(final(g_in), {_P}, p, q)), (0, H), (0, W))"
+# the target image: wall everywhere except the solution pixels, which are open, with the endpoints coloured or opened as the option says
+_TARGET = (
+    f"forall(lambda p, q: ({_is('final(g_tg)', 'OPEN')} if {_is(_P, 'PATH')} else"
+    f" ({_is('final(g_tg)', 'WALL')} if ({_is(_P, 'OPEN')} or {_is(_P, 'WALL')}) else"
+    f" ({_is('final(g_tg)', 'OPEN')} if endpoints_as_open else same_pixel(final(g_tg), {_P}, p, q)))), (0, H), (0, W))"
+)
+_POST = ("_extend_pixels(_remove_isolated_cells({x}))" if True else "")
+
+
+def _post(x):
+    return f"(_extend_pixels(_remove_isolated_cells({x})) if extend_pixels else _remove_isolated_cells({x})) if remove_isolated_cells else (_extend_pixels({x}) if extend_pixels else {x})"
+
+
+@contract(RZ, "process_maze_rasterized_input_target")
+class process_maze_rasterized_input_target:
+    params = dict(maze=SOLVED_M, remove_isolated_cells=FLAG, extend_pixels=FLAG, endpoints_as_open=FLAG)
+    lets = dict(H="2 * maze.connection_list.shape[1] + 1", W="2 * maze.connection_list.shape[2] + 1")
+    requires = [r.replace("self", "maze").replace("not has_field(maze, 'start_pos') or ", "").replace("not has_field(maze, 'solution') or ", "") for r in PX.as_pixels.requires]
+    # the two images after the colour rewriting, before the optional post-processing
+    ghost_after = {"if endpoints_as_open:": {"g_in": "problem_maze", "g_tg": "solution_maze"}}
+    ensures = {
+        "C17.input": _INPUT,
+        "C17.target": _TARGET,
+        # optional post-processing: isolated-cell removal first, then pixel extension, each exactly as its own contract says, on both images
+        "C17.post.input": f"same_grid(result[0], {_post('final(g_in)')})",
+        "C17.post.target": f"same_grid(result[1], {_post('final(g_tg)')})",
+    }
     props = ["C17"]
